@@ -146,7 +146,14 @@ func genWrapper(r *rand.Rand, depth int) *jdoc {
 	val := &jdoc{kind: 'r', s: string(vb)}
 	typ := &jdoc{kind: 'r', s: string(tb)}
 	d := &jdoc{kind: 'o', keys: []string{"value", "type"}, kids: []*jdoc{val, typ}}
-	switch r.Intn(12) {
+	switch r.Intn(14) {
+	case 12, 13: // a type descriptor with optional attributes (sometimes around a null): the annotations must not reach the value
+		if ab, err := ctyjson.MarshalType(c15Annotate(r, v.Type())); err == nil {
+			d.kids[1] = &jdoc{kind: 'r', s: string(ab)}
+		}
+		if r.Intn(3) == 0 {
+			d.kids[0] = &jdoc{kind: 'n'}
+		}
 	case 0:
 		d.keys, d.kids = []string{"type", "value"}, []*jdoc{typ, val}
 	case 1:
@@ -173,6 +180,37 @@ func genWrapper(r *rand.Rand, depth int) *jdoc {
 		d.kids[0] = &jdoc{kind: 'n'}
 	}
 	return d
+}
+
+// c15Annotate marks attributes of the object types inside t optional (nothing else changes).
+func c15Annotate(r *rand.Rand, t cty.Type) cty.Type {
+	switch {
+	case t.IsListType():
+		return cty.List(c15Annotate(r, t.ElementType()))
+	case t.IsSetType():
+		return cty.Set(c15Annotate(r, t.ElementType()))
+	case t.IsMapType():
+		return cty.Map(c15Annotate(r, t.ElementType()))
+	case t.IsTupleType():
+		es := t.TupleElementTypes()
+		n := make([]cty.Type, len(es))
+		for i := range es {
+			n[i] = c15Annotate(r, es[i])
+		}
+		return cty.Tuple(n)
+	case t.IsObjectType():
+		atys := map[string]cty.Type{}
+		var opts []string
+		src := t.AttributeTypes()
+		for _, k := range sortedKeys(src) {
+			atys[k] = c15Annotate(r, src[k])
+			if r.Intn(2) == 0 {
+				opts = append(opts, k)
+			}
+		}
+		return cty.ObjectWithOptionalAttrs(atys, opts)
+	}
+	return t
 }
 
 func (d *jdoc) write(sb *strings.Builder, r *rand.Rand) {
